@@ -613,7 +613,8 @@ class MinMaxAggregator:
                 oldmax = cond
             else:
                 rest_cond.append(cond)
-        assert oldmax is not None
+        if oldmax is None:
+            return [stm]
         if oldmax.atom.symbol.arguments[minmaxpred[2]] != Variable(LOC, varname):
             return [stm]
 
